@@ -463,6 +463,12 @@ func (a *FuncAn) projectValue(v ssa.Value, proj []int) (cterm, bool) {
 		return a.projectValue(x.X, append([]int{x.Field}, proj...))
 	case *ssa.UnOp:
 		if x.Op == token.MUL {
+			// load of a package-level struct that is only ever written by its initialiser
+			if g, chain := globalFieldChain(x.X); g != nil {
+				if c := a.E.initOnlyConst(g, append(chain, proj...)); c != nil {
+					return cterm{v: c, key: fmt.Sprintf("%p", c)}, true
+				}
+			}
 			// load of a struct from path P: field chain resolved against the locations available at the load
 			if snap := a.loadSnap[x]; snap != nil {
 				if p := a.pathOf(x.X); p != nil {
@@ -499,6 +505,22 @@ func (a *FuncAn) projectValue(v ssa.Value, proj []int) (cterm, bool) {
 		ks += fmt.Sprintf(".%d", f)
 	}
 	return cterm{key: ks}, true
+}
+
+// globalFieldChain: addr is g or &g.f1.f2…
+func globalFieldChain(addr ssa.Value) (*ssa.Global, []int) {
+	var chain []int
+	for {
+		switch x := addr.(type) {
+		case *ssa.Global:
+			return x, chain
+		case *ssa.FieldAddr:
+			chain = append([]int{x.Field}, chain...)
+			addr = x.X
+		default:
+			return nil, nil
+		}
+	}
 }
 
 func (a *FuncAn) ctermLin(c cterm, typ types.Type) Lin {
@@ -644,6 +666,15 @@ func (a *FuncAn) boolCallFacts(s *State, call *ssa.Call, truth bool) {
 		}
 		m := map[string]dlit{}
 		for _, l := range c.lits {
+			m[l.key()] = l
+		}
+		if c.res.kind == 't' {
+			// `return a || b || c`: on the last case the result *is* the term c, so the outcome fixes it
+			k := byte('f')
+			if truth {
+				k = 't'
+			}
+			l := dlit{t: c.res.t, kind: k}
 			m[l.key()] = l
 		}
 		if common == nil {
